@@ -27,6 +27,7 @@ RULE = (
     "blocks of <=4 operations) / operation raising by itself.  Non-trivial when the "
     "operations changed the snapshot; distinct by (depth, multiset of operation kinds, "
     "exit kind)."
+    " Failing forms include objective dictionaries naming foreign reactions or non-numeric coefficients, '*= 0', colliding names in add_cons_vars, repeated entries. Second workload: the repository's tests with the snapshot comparison armed at every outermost context."  # third-session additions
 )
 ASSUMPTIONS = [
     "list order of reactions/metabolites/genes is not compared (the property exempts it)",
